@@ -1,0 +1,17 @@
+//go:build verif
+
+package json
+
+import "context"
+
+// VerifJSONGateKey is the context key under which a verification harness
+// registers a callback that is invoked by a parser worker just before it
+// delivers a parsed batch (identified by its first line number). The callback
+// may block: that is how the harness decides the delivery order.
+type VerifJSONGateKey struct{}
+
+func verifJSONGate(ctx context.Context, firstLine int) {
+	if h, ok := ctx.Value(VerifJSONGateKey{}).(func(ctx context.Context, firstLine int)); ok {
+		h(ctx, firstLine)
+	}
+}
